@@ -18,7 +18,7 @@ from .. import c12_src
 from ..core import TranslateError, clist, cmat_nat, cnats, cq, np_seed
 
 IMPORTS = ('From Coq Require Import List Arith Bool ZArith QArith.\n'
-           'Require Import Model.C12_Refine Model.C12_Geom Gen.C12Gen Dyn.C12Tie.')
+           'Require Import Model.C12_Refine Gen.C12Gen.')
 
 DEFS = '''
 Local Open Scope nat_scope.
@@ -64,6 +64,10 @@ Definition run_tet (inp : inp_t) : out_t :=
 Definition run_tri := run_block tri_spec 2 4 gen_tri_submap gen_tri_rfacets gen_tri_bassign.
 Definition run_quad := run_block quad_spec 2 4 gen_quad_submap gen_quad_rfacets gen_quad_bassign.
 Definition run_hex := run_block hex_spec 3 8 gen_hex_submap gen_hex_rfacets [].
+Definition run_any (ki : nat * inp_t) : out_t :=
+  match fst ki with
+  | 0 => run_line (snd ki) | 1 => run_tri (snd ki) | 2 => run_quad (snd ki) | 3 => run_tet (snd ki) | _ => run_hex (snd ki)
+  end.
 '''
 
 
@@ -382,22 +386,26 @@ def run(ctx):
     if dyn_ok:
         rng = np_seed(ctx, 121)
         n = ctx.n(24, 90)
-        runner = {'line': 'run_line', 'tri': 'run_tri', 'quad': 'run_quad', 'tet': 'run_tet', 'hex': 'run_hex'}
-        for kind in gm.KINDS:
-            cases = corr_cases(ctx, kind, rng, n if kind not in ('hex',) else max(8, n // 3))
-            bad = ctx.corr(f'uniform_{kind}', IMPORTS, runner[kind], 'out_eqb', cases, defs=DEFS, per_file=30,
-                           nontrivial=lambda r: len(r['t'][0]) >= 2)
-            if cases:
-                c = cases[0][2]
+        cases = []
+        for ki, kind in enumerate(gm.KINDS):
+            cs = corr_cases(ctx, kind, rng, n if kind not in ('hex',) else max(8, n // 3))
+            cases += [(f'({ki}, {i})', o, r) for i, o, r in cs]
+            if cs:
+                c = cs[0][2]
                 ctx.sample({'kind': kind, 'cells': len(c['t'][0]), 'vertices': len(c['p'][0]), 'subdomain': c.get('subdomain'),
                             'boundary': c.get('boundary')})
-            for i in (bad or [])[:3]:
-                # a disagreement is a broken correspondence; whether the PROPERTY fails on that input is decided by the oracle
-                c = cases[i][2]
-                m = gm.skfem_cls(kind)(np.array(c['p']), np.array(c['t'], dtype=np.int32),
-                                       **({'sort_t': c['sort_t']} if kind == 'tri' else {}))
-                check_one_step(ctx, kind, m, {'a': c['subdomain']}, {'b': c['boundary']} if kind in ('tri', 'quad') else {},
-                               'corr-disagreement')
+        for c in cases:
+            ctx.hist('corr-kind', c[2]['kind'])
+        bad = ctx.corr('uniform', IMPORTS, 'run_any', 'out_eqb', cases, defs=DEFS, per_file=ctx.n(13, 24),
+                       nontrivial=lambda r: len(r['t'][0]) >= 2)
+        for i in (bad or [])[:4]:
+            # a disagreement is a broken correspondence; whether the PROPERTY fails on that input is decided by the oracle
+            c = cases[i][2]
+            kind = c['kind']
+            m = gm.skfem_cls(kind)(np.array(c['p']), np.array(c['t'], dtype=np.int32),
+                                   **({'sort_t': c['sort_t']} if kind == 'tri' else {}))
+            check_one_step(ctx, kind, m, {'a': c['subdomain']}, {'b': c['boundary']} if kind in ('tri', 'quad') else {},
+                           'corr-disagreement')
     # the search / supporting validation on the real code
     run_oracle(ctx)
 
